@@ -241,7 +241,11 @@ def _deep(ctx: Ctx, item):
         p = (bp & ~(0xFF << pos["instance"]) & ~(0xFF << pos["source"])) | ((j % 250) << pos["instance"]) | ((j // 250) << pos["source"])
         key = (dd.id, j % 250, j // 250)
         pk = traffic.render({"pgn": dd.pgn, "src": 1, "dest": 255, "data": p.to_bytes(bn, "little")[:8]})
-        m = old.decode_tcp(pk)
+        try:
+            m = old.decode_tcp(pk)
+        except Exception as e:
+            ctx.report("C17|deep|decoder-error", f"message {i + 1}: {type(e).__name__}: {e}", {"deep": n})
+            break
         ctx.count()
         if m is None or m.hash is None:
             bad += 1
@@ -253,7 +257,10 @@ def _deep(ctx: Ctx, item):
             ctx.report("C17|deep|split", f"key {key} hashed differently the second time (message {i + 1})", {"deep": n})
         seen.setdefault(key, m.hash)
         if i % 997 == 0 or i > n - 50:
-            f = fresh.decode_tcp(pk)
+            try:
+                f = fresh.decode_tcp(pk)
+            except Exception:
+                f = None
             if f is None or f.hash != m.hash:
                 ctx.report("C17|deep|differs-from-fresh", f"message {i + 1}: the long-lived decoder computes {m.hash}, a fresh one {f.hash if f else None}", {"deep": n})
     if len(set(seen.values())) != len(seen):
